@@ -66,7 +66,7 @@ def plan(ctx):
     return [
         ('shard_enum', [('tok', 'A_TOK', L, i, 48) for i in range(48)] +
                        [('envname', 'A_ENV', 3, i, 8) for i in range(8)] +
-                       [('cat', 'A_CAT', ctx.pick(3, 4), i, 32) for i in range(32)] +
+                       [('cat', 'A_CAT', 3, i, 32) for i in range(32)] +
                        ([('tokcore', 'A_TOK_CORE', 4, i, 96) for i in range(96)] if ctx.thorough else [])),
         ('shard_random', [('rnd', ctx.pick(1500, 40000), i) for i in range(16)]),
         ('shard_mutations', [('mut', ctx.pick(4, 40), i) for i in range(16)]),
